@@ -261,8 +261,8 @@ def spaces(tier):
     """(name, cfg text, simulate-num or None) of the ContractSpace runs of a tier"""
     if tier == "thorough":
         return [
-            ("small-free", space_cfg(SMALL, ASSERTED, ["compl", "all"], ["free"]), None),
-            ("small-id-none", space_cfg(SMALL, ASSERTED, ["none"], ["id"]), None),
+            ("small-free", space_cfg(SMALL, ASSERTED, ["compl"], ["free"]), None),
+            ("small-id-none", space_cfg(SMALL, ASSERTED, ["none", "all"], ["id"]), None),
             ("s32-free", space_cfg([32], ["Fdirect", "Iinvoke"], ["compl"], ["free"]), None),
             ("s32-id", space_cfg([32], ASSERTED, ["compl"], ["id"]), None),
             ("prec", space_cfg(SMALL + [32], PREC, ALLB, ["id"]), None),
